@@ -38,7 +38,8 @@ PROBES = ["reply_in_last_10pct_of_window", "da1_split_from_reply_by_delay",
           "xtversion_unsupported_env_fallback", "cell_via_ioctl", "cell_via_16t",
           "cell_via_14t", "mute_terminal_timeout", "queries_disabled_default",
           "mixed_hex_widths", "zero_delay_replies_prequeued",
-          "process_stalled_at_a_clock_read"]
+          "process_stalled_at_a_clock_read", "tcdrain_refused_by_the_platform",
+          "asked_while_disabled_then_again_when_enabled"]
 COMPONENTS = {
     "real": ["term_image.utils (query_terminal, read_tty, write_tty, get_cell_size, "
              "get_fg_bg_colors, get_terminal_name_version, lock_tty, cached)",
@@ -129,6 +130,11 @@ def run(ch, ctx, fault=None):
     if 0 < len(answered) < 6:
         ctx.nontrivial = True
 
+    if ch.bool("tcdrain_refused", 0.15):
+        # a platform on which tcdrain() always fails ("Permission denied", Termux): the
+        # request has been written all the same and the terminal answers
+        tty.tcdrain_refused = True
+        ctx.probe("tcdrain_refused_by_the_platform")
     with w:
         ti, utils = w.ti, w.utils
         from term_image import image as ti_image
